@@ -28,7 +28,7 @@ ASSUMPTIONS = ["type order is checked on eager calls only (under jit JAX sorts d
 ANCHORS = [
     "ginjax.models:UNet.__call__", "ginjax.models:ResNet.__call__", "ginjax.models:DilResNet.__call__", "ginjax.models:ConvBlock.__call__", "ginjax.models:ModelWrapper.__call__",
     "ginjax.geometric.multi_image:MultiImage.to_scalar_multi_image", "ginjax.geometric.multi_image:MultiImage.from_scalar_multi_image", "ginjax.ml.layers:LayerWrapper.__call__",
-    "ginjax.ml.layers:ConvContract.__call__",
+    "ginjax.ml.layers:ConvContract.__call__", "ginjax.ml.layers:LayerWrapperAux.__call__",
 ]
 MIN_NONTRIVIAL = {"quick": 15, "thorough": 250}
 WORKERS = {"quick": 8, "thorough": 16}
@@ -378,4 +378,6 @@ def finalize(tier, results, obs, hist, metas):
     problems = []
     if obs.get("convcontract_events_checked", 0) == 0:
         problems.append("no ConvContract event observed")
+    if obs.get("batchnorm_calls", 0) == 0:
+        problems.append("no call of a batch-normalised U-Net observed")
     return {}, problems
